@@ -137,4 +137,88 @@ example : FitsPrec 10 ⟨1229, 0⟩ 3 ∧ FitsPrec 10 ⟨1, 4⟩ 1 ∧ FitsPrec 
     reprCmpSameBase 10 (fun _ => 4) ⟨1229, 0⟩ ⟨123, 2⟩ (some (3, 3)) = .lt := by
   refine ⟨fun _ => by decide, fun _ => by decide, fun _ => by decide, by decide, by decide, by decide⟩
 
+
+-- ------------------------------------------------------------------ round 7: histories at ANY precision, order laws
+/- `float_history_value_order` carried `a.p ≤ isize::MAX`, `b.p ≤ isize::MAX`.  The hypothesis is weakened to what the repaired
+   comparison (/repo ee43486: precisions clamped to isize::MAX) really needs — at most 2^63 digits (`FitsP1 B cmpIsizeMax`), ANY
+   precision (also ≥ 2^63, e.g. `with_precision(usize::MAX)`) — and the order laws are stated for the registers of a history. -/
+
+private theorem hist_fin (a : FReg) (fa : FFin a.r) : (ofFloatRepr a.r).isInfinite = false := by
+  simp only [FRepr.isInfinite, ofFloatRepr, Bool.and_eq_false_iff, bne_eq_false_iff_eq, beq_eq_false_iff_ne]
+  by_cases h : a.r.signif = 0
+  · exact Or.inr (fa h)
+  · exact Or.inl h
+
+/-- **C05 for float histories, in terms of the values, ANY precisions**: for any two registers ever produced by a finite
+    program of float producers, of whatever precisions (also `≥ 2^63`), whose significands have at most `2^63` digits (every
+    significand a 64-bit address space can hold), the comparison the code runs says `Less / Equal / Greater` exactly when the
+    rational values `signif · B^exp` are so ordered, and `==` holds exactly when the values are equal.
+    (`float_history_value_order` is the special case `a.p, b.p ≤ isize::MAX`, where the digit bound is free.) -/
+theorem float_history_value_order_any_precision (k : FCfg) (hB : 2 ≤ k.B) (hdub : Float.DubSound k.B k.dub)
+    (hdlb : Float.DlbSound k.B k.dlb)
+    (ops : List FOp) (hok : ∀ op ∈ ops, op.Ok) (env : List FReg) (henv : ∀ x ∈ env, FGood k.B x)
+    (digitsUb : Int → Nat) (hub : ∀ s : Int, s.natAbs < k.B ^ digitsUb s)
+    (a b : FReg) (ha : a ∈ frun k ops env) (hb : b ∈ frun k ops env)
+    (hma : FitsP1 k.B cmpIsizeMax a.r) (hmb : FitsP1 k.B cmpIsizeMax b.r) :
+    let c := reprCmpSameBase k.B digitsUb (ofFloatRepr a.r) (ofFloatRepr b.r) (some (a.p, b.p))
+    (c = .lt ↔ (ofFloatRepr a.r).val k.B < (ofFloatRepr b.r).val k.B) ∧
+    (c = .eq ↔ (ofFloatRepr a.r).val k.B = (ofFloatRepr b.r).val k.B) ∧
+    (c = .gt ↔ (ofFloatRepr b.r).val k.B < (ofFloatRepr a.r).val k.B) ∧
+    (fbigEq (ofFloatRepr a.r) (ofFloatRepr b.r) = true ↔ (ofFloatRepr a.r).val k.B = (ofFloatRepr b.r).val k.B) := by
+  obtain ⟨_, fa, _⟩ := float_history k hB hdub hdlb ops hok env henv a ha
+  obtain ⟨_, fb, _⟩ := float_history k hB hdub hdlb ops hok env henv b hb
+  obtain ⟨h1, h2, _⟩ := float_history_cmp k hB hdub hdlb ops hok env henv digitsUb hub a b ha hb hma hmb
+  obtain ⟨v1, v2, v3⟩ := specFCmp_value k.B hB _ _ (hist_fin a fa) (hist_fin b fb)
+  intro c
+  have hc : c = specFCmp k.B (ofFloatRepr a.r) (ofFloatRepr b.r) := h1
+  refine ⟨by rw [hc]; exact v1, by rw [hc]; exact v2, by rw [hc]; exact v3, ?_⟩
+  rw [← h2, ← v2, ← hc]
+
+/-- **`cmp` is a total order on the registers of a float history**: transitive (`a ≤ b`, `b ≤ c` ⇒ `a ≤ c`, the three
+    comparisons each run with the precisions of their own operands) and swap-symmetric (`b.cmp(a) = a.cmp(b).reverse()`),
+    for any three registers of any precisions with at most `2^63` digits. -/
+theorem float_history_cmp_total_order (k : FCfg) (hB : 2 ≤ k.B) (hdub : Float.DubSound k.B k.dub)
+    (hdlb : Float.DlbSound k.B k.dlb)
+    (ops : List FOp) (hok : ∀ op ∈ ops, op.Ok) (env : List FReg) (henv : ∀ x ∈ env, FGood k.B x)
+    (digitsUb : Int → Nat) (hub : ∀ s : Int, s.natAbs < k.B ^ digitsUb s)
+    (a b c : FReg) (ha : a ∈ frun k ops env) (hb : b ∈ frun k ops env) (hc : c ∈ frun k ops env)
+    (hma : FitsP1 k.B cmpIsizeMax a.r) (hmb : FitsP1 k.B cmpIsizeMax b.r) (hmc : FitsP1 k.B cmpIsizeMax c.r) :
+    (reprCmpSameBase k.B digitsUb (ofFloatRepr a.r) (ofFloatRepr b.r) (some (a.p, b.p)) ≠ .gt →
+      reprCmpSameBase k.B digitsUb (ofFloatRepr b.r) (ofFloatRepr c.r) (some (b.p, c.p)) ≠ .gt →
+      reprCmpSameBase k.B digitsUb (ofFloatRepr a.r) (ofFloatRepr c.r) (some (a.p, c.p)) ≠ .gt) ∧
+    reprCmpSameBase k.B digitsUb (ofFloatRepr b.r) (ofFloatRepr a.r) (some (b.p, a.p))
+      = (reprCmpSameBase k.B digitsUb (ofFloatRepr a.r) (ofFloatRepr b.r) (some (a.p, b.p))).swap := by
+  have ab := float_history_value_order_any_precision k hB hdub hdlb ops hok env henv digitsUb hub a b ha hb hma hmb
+  have ba := float_history_value_order_any_precision k hB hdub hdlb ops hok env henv digitsUb hub b a hb ha hmb hma
+  have bc := float_history_value_order_any_precision k hB hdub hdlb ops hok env henv digitsUb hub b c hb hc hmb hmc
+  have ac := float_history_value_order_any_precision k hB hdub hdlb ops hok env henv digitsUb hub a c ha hc hma hmc
+  simp only at ab ba bc ac
+  refine ⟨fun h1 h2 => ?_, ?_⟩
+  · rw [Ne, ab.2.2.1, not_lt] at h1
+    rw [Ne, bc.2.2.1, not_lt] at h2
+    rw [Ne, ac.2.2.1, not_lt]
+    exact le_trans h1 h2
+  · obtain ⟨l1, e1, g1, _⟩ := ab
+    obtain ⟨l2, e2, g2, _⟩ := ba
+    rcases lt_trichotomy ((ofFloatRepr a.r).val k.B) ((ofFloatRepr b.r).val k.B) with h | h | h
+    · rw [l1.mpr h, g2.mpr h]; rfl
+    · rw [e1.mpr h, e2.mpr h.symm]; rfl
+    · rw [g1.mpr h, l2.mpr h]; rfl
+
+-- non-vacuity: a history with a register of precision usize::MAX = 2^64 − 1 (ABOVE the clamp: `float_history_value_order`
+-- does not apply): 123·10^1 at precision 3, the same value `with_precision(usize::MAX)`, 1·10^4 at precision 1 — all three
+-- have ≤ 2^63 digits, and the code's comparison orders them reg0 = reg1 < reg2
+example :
+    let k : FCfg := ⟨10, .halfEven, Float.coarseNone, fun s => Float.digitsI 10 s, fun s => Float.digitsI 10 s, Float.natSqrtRem⟩
+    let prog : List FOp := [.fromParts 123 1, .withPrecision 0 (2 ^ 64 - 1), .fromParts 1 4]
+    (∀ op ∈ prog, op.Ok) ∧
+    (frun k prog []).map (fun x => (x.r.signif, x.r.exp, x.p)) = [(123, 1, 3), (123, 1, 2 ^ 64 - 1), (1, 4, 1)] ∧
+    (∀ x ∈ frun k prog [], cmpIsizeMax < 2 ^ 64 - 1 ∧ x.r.digits 10 ≤ cmpIsizeMax + 1) ∧
+    reprCmpSameBase 10 (fun s => Float.digitsI 10 s) ⟨123, 1⟩ ⟨123, 1⟩ (some (3, 2 ^ 64 - 1)) = .eq ∧
+    reprCmpSameBase 10 (fun s => Float.digitsI 10 s) ⟨123, 1⟩ ⟨1, 4⟩ (some (2 ^ 64 - 1, 1)) = .lt := by
+  refine ⟨?_, by decide +kernel, by decide +kernel, by decide +kernel, by decide +kernel⟩
+  intro op hop
+  simp only [List.mem_cons, List.mem_nil_iff, or_false] at hop
+  rcases hop with rfl | rfl | rfl <;> simp [FOp.Ok]
+
 end Dashu.Props.C05
